@@ -307,9 +307,13 @@ impl States {
         s
     }
     pub fn enter(&self, actor: usize, idx: usize, op: u8) {
+        // harness boundary: what the actor did before is visible to everybody (the harness'
+        // own bookkeeping is not subject to store buffering)
+        crate::sched::flush_own();
         self.0.st[actor].store(((idx as u64) << 16) | ((op as u64) << 8) | 1, Ordering::SeqCst);
     }
     pub fn leave(&self, actor: usize, idx: usize) {
+        crate::sched::flush_own();
         self.0.st[actor].store(((idx as u64 + 1) << 16), Ordering::SeqCst);
     }
     pub fn done(&self, actor: usize) {
